@@ -110,6 +110,54 @@ func closedForms(r *vlib.Run) {
 		c.Nontrivial(fmt.Sprint("lambert", wit))
 	})
 
+	// a closed matte room with a spherical lamp: much of what the camera sees has bounced between
+	// the walls. Three estimators that integrate exactly the light paths of at most d+1 vertices
+	// (lamp included) - the recursive tracer with MaxDepth d, the bidirectional tracer with eye
+	// paths <= d and light paths of 1 vertex, and with eye paths of 1 and light paths <= d - must
+	// agree up to noise (mean brightness over the image within 5%; the noise is about 0.3%).
+	r.Section("closed.room", r.N(2, 40), vlib.SectionOpts{Sequential: true, NoScale: true}, func(c *vlib.Case) {
+		rng := c.Rng
+		hw := 4 + 2*rng.Float64()
+		lamp := &model3d.Sphere{Center: model3d.XYZ(rng.NormFloat64()*0.5, rng.NormFloat64()*0.5, hw*0.8), Radius: 0.7 + 0.5*rng.Float64()}
+		light := render3d.NewSphereAreaLight(lamp, render3d.NewColor(20))
+		albedo := 0.5 + 0.3*rng.Float64()
+		room := &render3d.ColliderObject{
+			Collider: model3d.MeshToCollider(model3d.NewMeshRect(model3d.XYZ(-hw, -hw, -hw-1), model3d.XYZ(hw, hw, 0)).Scale(-1)),
+			Material: &render3d.LambertMaterial{DiffuseColor: render3d.NewColor(albedo)},
+		}
+		scene := render3d.JoinedObject{room, light}
+		cam := render3d.NewCameraAt(model3d.XYZ(0, -3, 3), model3d.XYZ(0, 0.5, 0), math.Pi/6)
+		d := 2 + rng.Intn(2)
+		const size = 3
+		samples := r.N(20000, 60000)
+		mean := func(img *render3d.Image) float64 {
+			var sum float64
+			for _, px := range img.Data {
+				sum += px.Sum() / 3
+			}
+			return sum / float64(len(img.Data))
+		}
+		refImg := render3d.NewImage(size, size)
+		(&render3d.RecursiveRayTracer{Camera: cam, MaxDepth: d, NumSamples: samples,
+			FocusPoints:     []render3d.FocusPoint{&render3d.SphereFocusPoint{Center: lamp.Center, Radius: lamp.Radius}},
+			FocusPointProbs: []float64{0.5}}).Render(refImg, scene)
+		want := mean(refImg)
+		wit := map[string]interface{}{"room_half_width": hw, "lamp": fmt.Sprint(*lamp), "albedo": albedo, "depth": d, "samples": samples}
+		for _, cfg := range [][2]int{{d, 1}, {1, d}} {
+			img := render3d.NewImage(size, size)
+			(&render3d.BidirPathTracer{Camera: cam, Light: light, MaxDepth: cfg[0], MaxLightDepth: cfg[1], NumSamples: samples}).Render(img, scene)
+			got := mean(img)
+			c.Count("closed.room.comparisons", 1)
+			if !(math.Abs(got-want) <= 0.05*want) {
+				wit["bidir"] = fmt.Sprintf("MaxDepth=%d MaxLightDepth=%d", cfg[0], cfg[1])
+				c.Violation("render3d.BidirPathTracer.Render/same-path-set-as-recursive-tracer",
+					fmt.Sprintf("mean brightness %.4f with eye paths <= %d and light paths <= %d; the recursive tracer with MaxDepth %d gives %.4f", got, cfg[0], cfg[1], d, want), wit)
+				return
+			}
+		}
+		c.Nontrivial(fmt.Sprint("room", wit))
+	})
+
 	// emissive sphere seen directly
 	r.Section("closed.sphere", r.N(30, 1500), vlib.SectionOpts{Sequential: true}, func(c *vlib.Case) {
 		rng := c.Rng
